@@ -99,6 +99,7 @@ def job_c12(args):
         nyq_low = min(1.0, 1.0 / ratio)
         fmax = min(info["q"]["pb"], 2 - info["q"]["sb"]) * nyq_low
         out = dict(cfg=c, label=S.cfg_label(c), engine=info["engine"], plan=S.plan_signature(info), pclass=S.plan_class(info), bits=bits, seed=seed,
+                   flags=S.finding_flags(info),
                    n_in=N, dft_blocks_spanned=round(N / span, 2) if span else None,
                    horizon=H, kinds="+".join(s["kind"] for s in info["stages"]) or "none", designed_ok=S.designed_ok(info),
                    designed=sum(1 for s in info["stages"] if s["kind"] != "half"), where={})
@@ -153,6 +154,7 @@ def job_c12(args):
         out["dtypes"] = (int(it), int(ot))
         out["dtype_scale"] = sd
         out["dtype_bound"] = S.out_resolution(ot) + abs(sd) * lim1(bits)
+        out["gain_eff"] = sd * FS[ot] / FS[it]         # what _soxr_init receives as `multiplier`
         peak("dtype_err", np.abs(yt - sd * yd) if len(yt) == len(yd) else np.array([np.inf]))
 
         # --- shift covariance at the implementation period, broadband, beyond the start-up horizon: per sample, max norm
@@ -232,6 +234,7 @@ CLAUSES = [  # (key in the job result, what, needs-rational)
 def run(ctx):
     broken = common.proof_stage(ctx, ["SoxrModel.Properties.C12"], "C12", exes=(), gens=())
     S.harness()
+    S.set_active("C12")
     rng = ctx.rng
     quick = ctx.quick
     worst, sigs = {}, set()
@@ -327,7 +330,24 @@ def run(ctx):
             bound = t["dtype_bound"] if key == "dtype_err" else lim
             m = t[key] / bound
             wk = key + ("/(output resolution + scale x 2^(1-bits))" if key == "dtype_err" else "/2^(1-bits)")
+            # known findings: F-SG4 on the clauses that move the gain of a plan whose poly-phase stage carries it; F-PH1 on DC / spectral clauses
+            g = {"scale_pow2_err": t["scale_pow2"], "scale_gen_err": t["scale_gen"], "dc_scaled_err": t["scale_gen"], "dtype_err": t["gain_eff"]}.get(key)
+            cap4 = S.sg4_cap(t["pclass"], g, t["bits"]) if g is not None else 0.0
+            if cap4:
+                wk += " [F-SG4 signature]"
+            elif t["flags"].get("F-PH1") and key in ("dc_err", "dc_scaled_err", "shift_reduced_err"):
+                wk += " [F-PH1 signature]"
             worst[wk] = max(worst.get(wk, 0), m)
+            if m > 1 and cap4 and t[key] <= bound + cap4:
+                ctx.known("F-SG4", "%s: %s: gain %.4g carried by the poly-phase stage (datatypes %d -> %d, io_spec.scale %.4g in the datatype run): differs by %.3g "
+                                   "of full scale = %.1f x bound [plan %s, engine %s]"
+                          % (t["label"], what, g, t["dtypes"][0], t["dtypes"][1], t["dtype_scale"], t[key], m, t["plan"], t["engine"]))
+                continue
+            if m > 1 and key in ("dc_err", "dc_scaled_err", "shift_reduced_err"):
+                fid = S.known_excess(t, "rowsum" if key.startswith("dc") else "res", m)
+                if fid == "F-PH1":
+                    ctx.known(fid, S.known_text(fid, t, "%s: differs by %.3g of full scale = %.2f x 2^(1-bits)" % (what, t[key], m)))
+                    continue
             if m > 1:
                 ctx.violation("C12 %s: %s: differs by %.3g of full scale = %.2f x bound at output frame %d%s"
                               % (what, t["label"], t[key], m, t["where"].get(key, -1),
@@ -351,8 +371,10 @@ def run(ctx):
     f1_seen = [t for t in res if t.get("f1")]
     ctx.count("f1_signature_configurations_set_aside", len(f1_seen))
     for txt in S.pool_map(probe_f1_dc, [t["cfg"] for t in f1_seen[:4]]):
-        if txt:
+        if txt and "F1" in S.ACTIVE:
             ctx.known("F1", txt)
+        elif txt:
+            ctx.violation("C12: " + txt, {"finding": "F1 is not listed as known for this property any more", "what": txt}, no_input=True)
     ctx.count("paired_run_cases", n_cases)
     miss = S.missing_classes(classes_hit, S.REQUIRED_CLASSES + S.REQUIRED_ORDERS + [("cubic stage forced to carry the gain (ratio 1)", r"^cubic$")])
     miss += ["engine " + e for e in S.REQUIRED_ENGINES if e not in engines_hit]
